@@ -856,6 +856,10 @@ def _heap_refs(world, pred):
 def _gen_array_spec(kind, rng, cfg):
     if cfg['plain_forms'] or rng.random() < 0.45:
         form = 'array'
+    elif kind == 'dims':
+        # plot limits go to matplotlib, which normalises what it is given in place; a 2-D form
+        # would hand it views of the caller's array (dims[i] is a view then, not a scalar)
+        form = rng.choice(['list', 'tuple', 'intlist', 'view', 'strided', 'f32'])
     elif kind in values.VEC_KINDS:
         form = rng.choice(values.VEC_FORMS)
     else:
@@ -1045,8 +1049,10 @@ def gen_call(entry, world, cfg, rng, recv_ref=None, multi=False, single=False):
         rec['npseed'] = rng.randrange(1 << 30)
     if rng.random() < 0.25:
         rec['keep_args'] = True
-    # fault: bad_args
-    if cfg['fault_rate'] and rng.random() < cfg['fault_rate']:
+    # fault: bad_args (not for the plotting entry points: their arguments are handed on to
+    # matplotlib, which is third-party code and edits limit values in place through views)
+    plotting = entry.name in ('trplot', 'trplot2', 'plotvol2', 'plotvol3', 'plot')
+    if cfg['fault_rate'] and rng.random() < cfg['fault_rate'] and not plotting:
         slots = [('a', i) for i in range(len(args))] + [('k', k) for k in sorted(kwargs)]
         if slots:
             which = rng.choice(slots)
